@@ -29,7 +29,8 @@
 (*   (A) success: per requested type exactly cnt DISTINCT minors among the *)
 (*       devices the pod may use, each with free >= request at that moment *)
 (*   (K) failure only if for some requested type fewer than cnt such       *)
-(*       devices exist                                     (AllocOutcomeOK)*)
+(*       devices exist (counting what the request amounts to on the device,*)
+(*       see EffReq)                                       (AllocOutcomeOK)*)
 (* WHICH devices are chosen is left open (nondeterministic): scoring,      *)
 (* preferred minors, GPU topology scopes only select among allowed sets.   *)
 (* Not modelled: GPU partition tables, VF bookkeeping, reservations /      *)
@@ -81,9 +82,20 @@ TypeOK == /\ \A t \in Types, m \in Minors : \A r \in ResOf(t) : total[t][m][r] >
 \* required : [types -> set of minors]   the devices the pod may use (absent / empty: any device of the type)
 MayUse(t, required) == IF t \in DOMAIN required /\ required[t] # {} THEN required[t] \cap Minors ELSE Minors
 Fits(t, m, req)     == \A r \in DOMAIN req : r \in ResOf(t) /\ Free(t, m, r) >= req[r]
-Cands(t, req, required) == {m \in MayUse(t, required) : Fits(t, m, req)}
+\* GPU memory can be asked for in percent ("ratio") or in bytes ("mem"); a grant on device m charges BOTH, the one not
+\* asked for being derived from the device's memory size.  What a request amounts to on device m:
+EffReq(t, m, req) ==
+    IF t = "gpu" /\ "ratio" \in DOMAIN req /\ "mem" \notin DOMAIN req
+      THEN [r \in DOMAIN req \cup {"mem"} |-> IF r = "mem" THEN (req["ratio"] * total[t][m]["mem"]) \div 100 ELSE req[r]]
+    ELSE IF t = "gpu" /\ "mem" \in DOMAIN req /\ "ratio" \notin DOMAIN req /\ total[t][m]["mem"] > 0
+      THEN [r \in DOMAIN req \cup {"ratio"} |-> IF r = "ratio" THEN (req["mem"] * 100) \div total[t][m]["mem"] ELSE req[r]]
+    ELSE req
+\* (A) is taken literally (the amounts asked for are free); that the derived amount is free as well is demanded by (U)
+\* at the commit.  (K) excuses a failure when the request INCLUDING what it amounts to does not fit often enough.
+Cands(t, req, required)    == {m \in MayUse(t, required) : Fits(t, m, req)}
+CandsEff(t, req, required) == {m \in MayUse(t, required) : Fits(t, m, EffReq(t, m, req))}
 Feasible(reqs, required) ==
-    \A t \in DOMAIN reqs : t \in Types /\ Cardinality(Cands(t, reqs[t].req, required)) >= reqs[t].cnt
+    \A t \in DOMAIN reqs : t \in Types /\ Cardinality(CandsEff(t, reqs[t].req, required)) >= reqs[t].cnt
 \* (A)  result : [types -> sequence of [m, res]]
 GrantOK(reqs, required, result) ==
     \A t \in DOMAIN reqs :
